@@ -1,0 +1,29 @@
+//go:build verif
+
+package replay
+
+// Verification hooks for property C06 (read-only views of unexported state).
+
+// VerifCapacity returns the configured capacity of the cache.
+func (c *ReplayCache) VerifCapacity() int { return c.capacity }
+
+// VerifExpireIntervalNanos returns the configured expire interval in nanoseconds.
+func (c *ReplayCache) VerifExpireIntervalNanos() int64 { return c.expireInterval.Nanoseconds() }
+
+// VerifSnapshot returns the rotation deadline (unix nanoseconds) and copies of both generations.
+func (c *ReplayCache) VerifSnapshot() (expireUnixNano int64, current, previous map[uint64]string) {
+	c.mu.Lock()
+	defer c.mu.Unlock()
+	current = make(map[uint64]string, len(c.current))
+	for k, v := range c.current {
+		current[k] = v
+	}
+	previous = make(map[uint64]string, len(c.previous))
+	for k, v := range c.previous {
+		previous[k] = v
+	}
+	return c.expireTime.UnixNano(), current, previous
+}
+
+// VerifSignature exports computeSignature.
+func (c *ReplayCache) VerifSignature(data []byte) uint64 { return c.computeSignature(data) }
